@@ -103,3 +103,82 @@ Theorem C09c_consistent_intro_needed : forall (H : Type) (HO : ops H), ops_ok HO
   consistent HO s R m.
 Proof. exact consistent_intro_needed. Qed.
 Print Assumptions C09c_consistent_intro_needed.
+
+(** ** The mutators preserve the invariant (mirror Model/MapMut.v, compared with the code state for
+    state on every run).  [Inv] = [consistent] + "every remembered leaf carries the remember flag";
+    [tidy] = "stores nothing beyond the roots, the remembered leaves and the positions on their proof
+    paths; only remembered leaves carry the flag" (Proofs/MapMutPrune.v). *)
+From Utreexo Require Import Model.MapMut Proofs.CalcSound Proofs.MapMutPrune.
+
+Theorem C09_inv_gives_read_side : forall (H : Type) (HO : ops H) (s : slots H) (R : list H) (m : mstate H),
+  Inv H HO s R m -> consistent HO s R m.
+Proof. exact Inv_consistent. Qed.
+Print Assumptions C09_inv_gives_read_side.
+
+Theorem C09_inv_initial : forall (H : Type) (HO : ops H) (T : N) (full : bool), T <= 63 ->
+  Inv H HO [] [] (mkM [] [] 0 T full).
+Proof. exact Inv_empty. Qed.
+Print Assumptions C09_inv_initial.
+
+(** Prune: always succeeds on a partial forest in the invariant, keeps the invariant for the smaller
+    remembered set (every remaining remembered leaf stays provable, every stored hash stays true) *)
+Theorem C09_prune_preserves_invariant :
+  forall (H : Type) (HO : ops H), ops_ok HO ->
+  forall (s : slots H) (R : list H) (m : mstate H) (hs : list H),
+    Inv H HO s R m -> ms_full m = false ->
+    exists m', mm_prune HO m hs = Some m' /\
+      Inv H HO s (filter (fun h => negb (memH HO h hs)) R) m' /\
+      ms_n m' = ms_n m /\ ms_total m' = ms_total m /\ ms_full m' = false.
+Proof. exact mm_prune_inv. Qed.
+Print Assumptions C09_prune_preserves_invariant.
+
+(** "Pruning a leaf removes exactly what no other remembered leaf needs" (upper half: nothing outside
+    the allowed set stays; the lower half - everything needed stays - is part of [Inv]) *)
+Theorem C09_prune_preserves_tidy :
+  forall (H : Type) (HO : ops H), ops_ok HO ->
+  forall (s : slots H) (R : list H) (m : mstate H) (hs : list H) (m' : mstate H),
+    Inv H HO s R m -> tidy H HO s R m -> ms_full m = false ->
+    mm_prune HO m hs = Some m' ->
+    tidy H HO s (filter (fun h => negb (memH HO h hs)) R) m'.
+Proof. exact mm_prune_tidy. Qed.
+Print Assumptions C09_prune_preserves_tidy.
+
+Theorem C09_tidy_within_allowed :
+  forall (H : Type) (HO : ops H), ops_ok HO ->
+  forall (s : slots H) (R : list H) (m : mstate H),
+    Inv H HO s R m -> tidy H HO s R m ->
+    exists al, allowed_pos HO s R = Some al /\ (forall p, In p (stored_min m) -> In p al).
+Proof. exact tidy_allowed. Qed.
+Print Assumptions C09_tidy_within_allowed.
+
+(** Ingest and Verify-with-remember of the canonical proof of any distinct live leaves: accepted,
+    invariant kept for the larger remembered set, nothing superfluous stored (partial forests) *)
+Theorem C09_ingest_preserves_invariant :
+  forall (H : Type) (HO : ops H) (s : slots H) (R : list H) (m : mstate H) (hs : list H) (ts : list N)
+         (pf : list H),
+    ops_ok HO ->
+    (forall a b, NZ HO (op_hash2 HO a b)) ->
+    (forall h, In (Some h) s -> NZ HO h) ->
+    Inv H HO s R m -> NoDup hs ->
+    exp_prove HO (mk_ctx HO s) hs = Some (ts, pf) ->
+    exists m', mm_ingest HO m hs ts pf = Some m' /\
+      Inv H HO s (R ++ hs) m' /\
+      ms_n m' = ms_n m /\ ms_total m' = ms_total m /\ ms_full m' = ms_full m /\
+      (ms_full m = false -> tidy H HO s R m -> tidy H HO s (R ++ hs) m').
+Proof. exact @mm_ingest_inv. Qed.
+Print Assumptions C09_ingest_preserves_invariant.
+
+Theorem C09_verify_remember_preserves_invariant :
+  forall (H : Type) (HO : ops H) (s : slots H) (R : list H) (m : mstate H) (hs : list H) (ts : list N)
+         (pf : list H),
+    ops_ok HO ->
+    (forall a b, NZ HO (op_hash2 HO a b)) ->
+    (forall h, In (Some h) s -> NZ HO h) ->
+    Inv H HO s R m -> NoDup hs ->
+    exp_prove HO (mk_ctx HO s) hs = Some (ts, pf) ->
+    exists m', mm_verify_remember HO m hs ts pf = Some m' /\
+      Inv H HO s (R ++ hs) m' /\
+      ms_n m' = ms_n m /\ ms_total m' = ms_total m /\ ms_full m' = ms_full m /\
+      (ms_full m = false -> tidy H HO s R m -> tidy H HO s (R ++ hs) m').
+Proof. exact @mm_verify_remember_inv. Qed.
+Print Assumptions C09_verify_remember_preserves_invariant.
